@@ -364,9 +364,17 @@ def tearfree_sketchy(ctx):
       ctx.need('C09.R2', len(set(svds)), 1, 'svd in _update_axis')
       S = svds[0]
       s_, u_ = T('sub', S, const(1)), T('sub', S, const(0))
-      k_t = ev.last_scope.vars.get('k')
-      if k_t is None:
-        raise AnalysisError('_update_axis: sketch size `k` not found')
+      # the sketch size: the local value that caps a configured rank by the axis dimension, min(update.shape[dim], ...)
+      d_t = spec_term(ev, 'update.shape[dim]', {'update': U, 'dim': sym('param', fi.short, 'dim')})
+
+      def _is_cap(v_):
+        if v_.op == 'ite':
+          return _is_cap(v_.args[1]) and _is_cap(v_.args[2])
+        return v_.op == 'call' and v_.args[0].op == 'builtin' and v_.args[0].args[0] == 'min' and any(a_ is d_t for a_ in v_.args[1])
+      caps = [v_ for v_ in ev.last_scope.vars.values() if _is_cap(v_)]
+      if not caps:
+        raise AnalysisError('_update_axis: sketch size (min(axis dimension, configured rank)) not found')
+      k_t = caps[0]
       env = {'s': s_, 'u': u_, 'k': k_t, 'tail': sym('slot', 'tail'), 'beta': beta, 'update': U}
       l_new = strip_clamps(rf['eigvals'])
       t_new = strip_clamps(rf['tail'])
@@ -415,7 +423,7 @@ def tearfree_sketchy(ctx):
           hist, fresh = parts.args
           exp_h = spec_term(ev, 'V * l[jnp.newaxis, :] * jnp.sqrt(beta)', {'V': sym('slot', 'eigvecs'), 'l': sym('slot', 'eigvals'), 'beta': beta})
           exp_f = spec_term(ev, 'update.transpose([dim] + [i for i in range(update.ndim) if i != dim]).reshape(d, -1)',
-                            {'update': U, 'dim': sym('param', fi.short, 'dim'), 'd': ev.last_scope.vars.get('d', NONE)})
+                            {'update': U, 'dim': sym('param', fi.short, 'dim'), 'd': d_t})
           ok4 = cmpr.same(hist, exp_h) and cmpr.same(fresh, exp_f) and is_const(dict(cat[0].args[2]).get('axis', NONE), 1)
       ctx.ob('C09.R4', fi.short, f'sketched matrix = [sqrt(b) V l, unfold(G)] {tag}', ok4,
              f'the factored matrix must be concatenate([V * l * sqrt(beta), gradient unfolded along `dim` (axis first, rest flattened)], axis=1); got `{show(S.args[1][0], maxdepth=6)[:240]}`',
